@@ -63,7 +63,7 @@ def run(rep, tier, seed):
         return
     fixed = lf.replay_known(rep, "C14", oracle)
     cases = fixed + gen(rng, tier)
-    lf.run_cases(cases)
+    lf.run_cases(cases, extra_requests=lambda c: ["cert noshiftstop", "cert structural 0 0"])
     check(rep, cases, proofs_ok)
 
 
@@ -74,7 +74,16 @@ def check(rep, cases, proofs_ok):
                        "is not itself lexable as a token); distinct = (grammar, settings, input)")
     for c in cases:
         rep.count("layout_kind:" + str(c.gram.layout if c.gram else None))
-    lf.evaluate(rep, cases, oracle, proofs_ok, PROP_MODULE,
+    def orc(c):
+        bad = oracle(c)
+        ex = getattr(c, "extra", None)
+        if ex:
+            okc = all(x == "1" for x in ex)
+            rep.count("certs_" + ("pass" if okc else "FAIL"))
+            if not okc:
+                bad.append((None, "Cert.noShiftStop / Cert.structural fail on the compiler's table: hypotheses of C14_roundtrip not met"))
+        return bad
+    lf.evaluate(rep, cases, orc, proofs_ok, PROP_MODULE,
                 in_scope=lambda c: tp.parse_dump(c.dump)["conflicts"] == 0)
 
 
@@ -83,5 +92,5 @@ def replay(rep, path):
     build_harness()
     g = lf.parse_bnf(p["grammar"])
     c = lf.Case(p["grammar"], p["settings"].split(" "), [("LR", p.get("partial", "0"), p.get("input", ""), {"toks": ()})], gram=g)
-    lf.run_cases([c])
+    lf.run_cases([c], extra_requests=lambda c: ["cert noshiftstop", "cert structural 0 0"])
     check(rep, [c], True)
